@@ -12,7 +12,8 @@
         // frame: other keyspaces untouched (C12), flags only ever set
         forall|k: u64| k != self.id && old(w).trees.dom().contains(k) ==> final(w).trees.dom().contains(k) && #[trigger] final(w).trees[k] == old(w).trees[k], // [C12:frame-other-keyspaces] [C01:frame-other-keyspaces]
         final(w).deleted == old(w).deleted && final(w).db_poison == old(w).db_poison,
-        r is Ok ==> !final(w).journal.locked && final(w).inflight is None, // [C06:critical-section-closed]
+        !final(w).journal.locked, // [C06:critical-section-closed] (every exit, rule R-SCOPE)
+        r is Ok ==> final(w).inflight is None, // [C06:critical-section-closed]
         r is Ok ==> (exists|k2: Slice, v2: Slice| #![auto] into_slice(key, k2) && into_slice(value, v2)
                 && final(w).trees[self.id].applied == old(w).trees[self.id].applied.push(ApplyG { kind: ApplyKind::Insert, key: k2@, value: v2@, seqno: old(w).seqno })), // [C01:insert-effect]
         r is Ok ==> final(w).seqno == old(w).seqno + 1, // [C06:one-seqno-per-op]
